@@ -324,6 +324,26 @@ func runC13(c *ctx) {
 		runtime.GC()
 		debug.FreeOSMemory()
 	}
+	// a list that reaches the limit by expanding an ellipsis: exactly 16,777,215 elements can be constructed that way too,
+	// one more cannot
+	{
+		tpl := ast.NewListNode(ast.NewBinaryNode(0), "...")
+		for _, n := range []int{ref.MaxBytes - 1, ref.MaxBytes} {
+			var got ast.ItemNode
+			o := real.Try(func() { got = tpl.FillVariables(map[string]interface{}{"...": n}) })
+			c.NoteBulk(1, 1)
+			c.Class("list-at-the-limit-by-expansion")
+			switch {
+			case n+1 <= ref.MaxBytes && (o.Panicked || got.Size() != n+1):
+				c.Violation("C13/item/refused-within-limit/L-by-expansion", fmt.Sprintf("expanding <L <B 0> ...> with %d (a list of %d elements): %s", n, n+1, o), c13Case{"expand", "L", n})
+			case n+1 > ref.MaxBytes && !o.Panicked:
+				c.Violation("C13/item/accepted-beyond-limit/L-by-expansion", fmt.Sprintf("expanding <L <B 0> ...> with %d gave a list of %d elements", n, got.Size()), c13Case{"expand", "L", n})
+			}
+			got = nil
+			runtime.GC()
+			debug.FreeOSMemory()
+		}
+	}
 	// a list of 16,777,216 elements is beyond the limit whatever its last element is (item, variable, ellipsis)
 	{
 		args := make([]interface{}, ref.MaxBytes+1)
@@ -370,7 +390,7 @@ func runC13(c *ctx) {
 			c.Violation("C13/fill/encoding", fmt.Sprintf("filled ASCII of %d characters encodes to %d bytes", n, len(filled.ToBytes())), c13Case{"fill", "A", n})
 		}
 	}
-	c.Required = []string{"mixed-length-fields", "items-at-the-limit-inside-a-list", "list-limit-with-variable-last", "earlier-encoding-re-read", "ascii-fill-at-the-limit", "item/beyond-limit", "item/lenbytes=3/L", "item/lenbytes=3/A", "item/lenbytes=3/F8", "item/lenbytes=2/U2", "header-sweep-points"}
+	c.Required = []string{"mixed-length-fields", "items-at-the-limit-inside-a-list", "list-at-the-limit-by-expansion", "list-limit-with-variable-last", "earlier-encoding-re-read", "ascii-fill-at-the-limit", "item/beyond-limit", "item/lenbytes=3/L", "item/lenbytes=3/A", "item/lenbytes=3/F8", "item/lenbytes=2/U2", "header-sweep-points"}
 }
 
 func replayC13(c *ctx, raw json.RawMessage) {
